@@ -6,9 +6,12 @@ case = {
             TransformedTargetForecaster / inside a MultiplexForecaster) | naive | ttfnaive | muxreal (library forecasters)
   "search": "grid" | "rand";  "grid": [ {name: [values] | "~e" | "~s"}, ... ];  "n_iter", "rs" (rand only)
   "cv":     {"k": "s"|"e", "fh": [...], "wl", "step", "iw", "sww"};  "n", "origin", "yseed"
-  "metric": ctl | ctlneg(gib via "gib") | mae | smape | mape | negmae ;  "gib": bool;  "strategy": refit|update
+  "metric": ctl (order-insensitive, reads the chosen score off the forecast) | mae | negmae | MAE | mape | none ;
+            "gib": greater_is_better declared by the metric;  "strategy": refit|update
   "refit":  bool;  "fitfh": None | [...]
-  "ops":    [["F"], ["p", fh|None], ["c"], ["u", k, up], ["s", k, fh], ["U", k]]      (F = tuner.fit(y, fh=fitfh))
+  "ops":    [["F"], ["p", fh|None], ["c"], ["u", k, up], ["s", k, fh, up], ["U", k, up]]   F = tuner.fit(y, fh=fitfh);
+            u/s/U = update / update_predict_single / update_predict with the next k observations,
+            up = update_params: true | false | null (left to the callee's default)
   "tab":    {"a,b": [score per fold (float | None = NaN), ...]}   chosen scores of the score-controlled forecasters
 }
 The driver line carries, per distinct parameter set: the per-fold scores of an INDEPENDENT evaluate() run of a
@@ -815,6 +818,10 @@ def _random_case(rng):
             "strategy": rng.choice(["refit", "refit", "update"]), "refit": rng.random() < 0.8,
             "fitfh": rng.choice([None, None, [1, 2], [1]]), "ops": _rand_ops(rng), "tab": {}}
     if fc == "ttfnaive":
+        # refit only: under strategy="update" TransformedTargetForecaster.update feeds the raw series to the inner
+        # forecaster (C09's finding), scores then shift by +-t__c per fold and candidates become mathematically tied
+        # but not float-tied (exact-rational model vs float pandas would rank them differently)
+        case["strategy"] = "refit"
         case["cv"]["wl"] = max(case["cv"]["wl"], 4)
         if case["cv"]["iw"] is not None and case["cv"]["iw"] <= case["cv"]["wl"]:
             case["cv"]["iw"] = None
